@@ -184,7 +184,7 @@ def write_svg(matrix, matrix_size, out, colormap, scale=1, border=None, xmldecl=
     is_multicolor = len(set(colormap.values())) > 2 \
         or any(clr != colormap[consts.TYPE_DATA_DARK if mt >> 8 else consts.TYPE_QUIET_ZONE]
                for mt, clr in colormap.items())
-    need_background = not is_multicolor and colormap[consts.TYPE_QUIET_ZONE] is not None and not draw_transparent
+    need_background = not is_multicolor and colormap[consts.TYPE_QUIET_ZONE] is not None
     need_svg_group = scale != 1 and (need_background or is_multicolor)
     if is_multicolor:
         miter = matrix_to_lines_verbose()
